@@ -272,4 +272,19 @@ inline bool cls_hypot(T x, T y, T z)
     return ss < std::numeric_limits<T>::epsilon() && !(zero_b(x) && zero_b(y) && zero_b(z));
 }
 
+// hypot(x, y) = sqrt(x*x + y*y) without scaling: wrong (inf, 0 or a few bits) as soon as a square leaves the normal range
+template <typename T>
+inline bool cls_hypot_naive(T x, T y)
+{
+    if (nan_b(x) || nan_b(y) || inf_b(x) || inf_b(y)) { return false; }
+    int const lim = sizeof(T) == 4 ? 62 : 510;
+    auto out = [&](T v) {
+        if (zero_b(v)) { return false; }
+        int e = 0;
+        (void)std::frexp(static_cast<double>(v), &e);
+        return e - 1 > lim || e - 1 < -lim;
+    };
+    return out(x) || out(y);
+}
+
 } // namespace c16
